@@ -522,6 +522,14 @@ func checkC18(ca *checkArgs) int {
 				"first_use_only_statements_cold_total":     pb.stats["first_use_only_statements_cold"] + rb.stats["first_use_only_statements_cold"],
 				"first_use_only_statements_repeated_total": pb.stats["first_use_only_statements_repeated"] + rb.stats["first_use_only_statements_repeated"],
 				"sync_gate_calls":                          pb.stats["gate_calls"] + rb.stats["gate_calls"],
+				"runs_with_pre_roll":                       pb.stats["runs_with_pre_roll"] + rb.stats["runs_with_pre_roll"],
+				"runs_with_2_or_more_overlapping_tasks":    pb.stats["runs_with_2_or_more_overlapping_tasks"] + rb.stats["runs_with_2_or_more_overlapping_tasks"],
+				"runs_with_5_or_more_overlapping_tasks":    pb.stats["runs_with_5_or_more_overlapping_tasks"] + rb.stats["runs_with_5_or_more_overlapping_tasks"],
+				"runs_with_9_or_more_overlapping_tasks":    pb.stats["runs_with_9_or_more_overlapping_tasks"],
+				"runs_with_17_or_more_overlapping_tasks":   pb.stats["runs_with_17_or_more_overlapping_tasks"],
+				"runs_with_33_or_more_overlapping_tasks":   pb.stats["runs_with_33_or_more_overlapping_tasks"],
+				"runs_with_65_or_more_overlapping_tasks":   pb.stats["runs_with_65_or_more_overlapping_tasks"],
+				"runs_with_129_or_more_overlapping_tasks":  pb.stats["runs_with_129_or_more_overlapping_tasks"],
 			},
 			"data_race_reports":  len(rb.races),
 			"unreached_required": unreached,
